@@ -51,7 +51,7 @@ var initWhitelist = map[string]bool{
 	"slices": true, "cmp": true, "bytes": true, "bufio": true, "container/list": true,
 	"net/url": true, "math": true, "math/bits": true, "strings": true, "io": true, "path": true,
 	"encoding/base64": true, "errors": true, "html": true, "maps": true, "encoding/binary": true,
-	"internal/itoa": true, "internal/stringslite": true, "internal/bytealg": true,
+	"internal/itoa": true, "io/ioutil": true, "internal/stringslite": true, "internal/bytealg": true,
 }
 
 func isRepoPkg(path string) bool {
@@ -245,9 +245,6 @@ func (p *Program) boot() error {
 				if g, ok := m.(*ssa.Global); ok {
 					delete(in.globals, g)
 				}
-			}
-			if isRepoPkg(sp.Pkg.Path()) {
-				return fmt.Errorf("init of %s failed: %s", sp.Pkg.Path(), p.initFail[sp.Pkg.Path()])
 			}
 		}
 	}
